@@ -70,6 +70,7 @@ theorem inv_step (cfg : Cfg) (t : T) (hi : Inv cfg t) (op : Op) : Inv cfg (step 
   cases op with
   | createFile p => simp only [step]; split <;> exact ⟨hi.nodup, hi.sound⟩
   | mkdir p => simp only [step]; split <;> exact ⟨hi.nodup, hi.sound⟩
+  | createOther p => simp only [step]; split <;> exact ⟨hi.nodup, hi.sound⟩
   | remove p => exact ⟨hi.nodup, hi.sound⟩
   | rename p q => simp only [step]; split <;> exact ⟨hi.nodup, hi.sound⟩
   | appendLine p l => simp only [step]; split <;> (try split) <;> exact ⟨hi.nodup, hi.sound⟩
@@ -110,6 +111,13 @@ theorem pending_settled_at_poll (cfg : Cfg) (t : T) :
   refine ⟨?_, rfl⟩
   have := (after_poll_tailed_eq_eligible_delivered cfg t)
   exact this
+
+/-- something that is neither file nor directory and matches a pattern is never tailed, and the
+    regular files that sort after it still are -/
+example :
+    let cfg : Cfg := ⟨[[100, 47, 42]], fun pat p => pat = [100, 47, 42] && p.take 2 = [100, 47], fun _ => false⟩
+    (run cfg {} [.mkdir [100], .createOther [100, 47, 48], .createFile [100, 47, 97], .poll]).streams
+      = [[100, 47, 97]] := by decide
 
 /-- non-vacuity: two overlapping patterns, one ignored file, one directory -/
 example :
